@@ -10,8 +10,11 @@ input column into batches, `images ty vss` the single-precision images (Go `floa
 values in order.
 
 * count / min / max / avg: proved for every split, every length (empty input included) and every
-  column type that `ColumnToFloat32` converts (`ty.handled`); the statement for *all* numeric column
-  types is false of the code (`C23_cex_types`, `C23_cex_avg_types`).
+  numeric column type (`C23_full`, `C23_avg_full`).  Which slice types `ColumnToFloat32/64` convert is
+  read off the regenerated skeletons of the two functions (`ColType.handled`), pinned by
+  `skel_ColumnToFloat32/64`; a non-numeric column is an error (`C23_non_numeric_rejected`).
+  (Before the repair "fix: convert every numeric column type in uda.ColumnToFloat32/64" only five
+  slice types had a clause: min/max panicked and avg returned NaN for the other six.)
 * min / max are stated on the total order of non-NaN floats (`key`); `avg` is "the same left fold of
   float64 `+`" divided by the count — nothing is claimed about rounding.
 * gap: exact for an int64 Epoch column under `FloatExactOn` (float64 arithmetic exact on the
@@ -151,33 +154,62 @@ theorem C23_avg (ty : ColType) (h : ty.handled = true) (vss : List (List Int)) :
   rw [foldl_avgStep]
   simp [avgNew, avgOutput]
 
-/-! ## the full statement over all numeric column types is false of the code -/
+/-! ## the tie to the source, and the full statement over all numeric column types -/
 
-/-- C23 as the property states it ("all input columns of any numeric type") -/
-def C23_full : Prop :=
-  ∀ (ty : ColType) (vss : List (List Int)),
-    MinMaxCorrect minAccum IsMinOf ty vss ∧ MinMaxCorrect maxAccum IsMaxOf ty vss
+/-- the type switches of the CURRENT `uda.ColumnToFloat32/64` (regenerated from the source on every
+    run): one converting clause per numeric slice type, and a default clause returning an error -/
+def expColumnToFloat (clauses : List String) : List String :=
+  ["call:cols.GetColumn", "if:ccol == nil{", "call:fmt.Errorf", "return", "}", "typeswitch{"] ++
+  clauses ++ ["case:default{", "call:fmt.Errorf", "return", "}", "}", "return"]
 
-/-- an `int16` column: `ColumnToFloat32` returns the nil slice and `inputCol[0]` panics -/
-theorem C23_cex_types : ¬ C23_full := by
-  intro h
-  obtain ⟨r, hr, _⟩ := (h .i16 [[1, 2]]).1 (by decide) (by decide)
-  have hp : finalState minAccum minMaxNew ([[1, 2]].map (Batch.ofVals .i16)) = .error "panic:index" := by decide
-  rw [hp] at hr
-  cases hr
+def convClause (ty : ColType) : List String := [ty.caseAtom, "range:cc{", "setidx:outCol", "}", "}"]
 
-theorem C23_cex_types_panic :
-    minAccum minMaxNew (Batch.ofVals .i16 [1, 2]) = .error "panic:index" ∧
-    maxAccum minMaxNew (Batch.ofVals .u32 [7]) = .error "panic:index" := by
+def numericTypes : List ColType := [.int, .i64, .i32, .i16, .i8, .u8, .u16, .u32, .u64]
+
+theorem skel_ColumnToFloat32 :
+    Mkts.Extracted.Skel.uda_ColumnToFloat32 =
+      expColumnToFloat (["case:[]float32{", "}"] ++ convClause .f64 ++ (numericTypes.map convClause).flatten) := by
   decide
 
-/-- `avg` over an unhandled type does not fail: it silently reports NaN (0/0) -/
-theorem C23_cex_avg_types :
-    (avgAccum avgNew (Batch.ofVals .i16 [1, 2])).map avgOutput = .ok (qnan b64) ∧
-    div b64 (fsum 0 (images .i16 [[1, 2]])) (ofInt b64 2) = 0x3FF8000000000000 := by
-  decide +kernel
+theorem skel_ColumnToFloat64 :
+    Mkts.Extracted.Skel.uda_ColumnToFloat64 =
+      expColumnToFloat (["case:[]float64{", "}"] ++ convClause .f32 ++ (numericTypes.map convClause).flatten) := by
+  decide
 
-/-- exactly the excluded class as hypothesis -/
+/-- every numeric slice type has a clause in both functions; anything else is an error -/
+theorem code_handles_all_numeric (ty : ColType) (h : ty.numeric = true) :
+    ty.handled = true ∧ ty.handled64 = true := by
+  cases ty <;> first | (exact ⟨by decide, by decide⟩) | (cases h)
+
+theorem code_default_is_error : defaultIsError = true ∧ defaultIsError64 = true := by decide
+
+/-- C23 as the property states it ("all input columns of any numeric type"): min and max are the
+    attained minimum / maximum of the single-precision images, for every numeric column type, every
+    length and every split into batches -/
+theorem C23_full (ty : ColType) (hnum : ty.numeric = true) (vss : List (List Int)) :
+    MinMaxCorrect minAccum IsMinOf ty vss ∧ MinMaxCorrect maxAccum IsMaxOf ty vss :=
+  ⟨C23_min ty (code_handles_all_numeric ty hnum).1 vss, C23_max ty (code_handles_all_numeric ty hnum).1 vss⟩
+
+/-- avg for every numeric column type -/
+theorem C23_avg_full (ty : ColType) (hnum : ty.numeric = true) (vss : List (List Int)) :
+    ∃ s, finalState avgAccum avgNew (vss.map (Batch.ofVals ty)) = .ok s ∧
+      avgOutput s = div b64 (fsum 0 (images ty vss)) (ofInt b64 (images ty vss).length) := by
+  obtain ⟨s, h1, _, _, h4⟩ := C23_avg ty (code_handles_all_numeric ty hnum).1 vss
+  exact ⟨s, h1, h4⟩
+
+/-- a column that is not numeric (e.g. `[]bool`) is rejected with an error by min, max and avg:
+    no panic, no silent NaN -/
+theorem C23_non_numeric_rejected (vs : List Int) (hne : vs ≠ []) :
+    minAccum minMaxNew (Batch.ofVals .other vs) = .error "err:unsupported" ∧
+    maxAccum minMaxNew (Batch.ofVals .other vs) = .error "err:unsupported" ∧
+    avgAccum avgNew (Batch.ofVals .other vs) = .error "err:unsupported" := by
+  have h1 : ColType.handled .other = false := by decide
+  have h2 : defaultIsError = true := code_default_is_error.1
+  cases vs with
+  | nil => exact absurd rfl hne
+  | cons a t => simp [minAccum, maxAccum, minMaxAccum, avgAccum, Batch.ofVals, h1, h2]
+
+/-- the statement restricted to the types with a clause (what the proofs above instantiate) -/
 theorem C23_partial (ty : ColType) (h : ty.handled = true) (vss : List (List Int)) :
     MinMaxCorrect minAccum IsMinOf ty vss ∧ MinMaxCorrect maxAccum IsMaxOf ty vss :=
   ⟨C23_min ty h vss, C23_max ty h vss⟩
@@ -192,7 +224,7 @@ theorem C23_gap_exact (thr : Int) (es : List Int) (h : FloatExactOn thr es) :
   | nil => simp [gapAccum, Batch.ofVals, specGaps, pairs]
   | cons a t =>
     have hb := bigGaps_eq_spec thr (a :: t) h
-    simp only [gapAccum, Batch.ofVals, List.length_cons, columnToFloat64_handled (ty := .i64) rfl]
+    simp only [gapAccum, Batch.ofVals, List.length_cons, columnToFloat64_handled (ty := .i64) (by decide)]
     rw [hb]
     by_cases he : (specGaps thr (a :: t)).isEmpty
     · simp [List.isEmpty_iff.mp he]
